@@ -475,8 +475,9 @@ def m_deepcopy(I, args, kw):
     return snapshot_value(args[0], deep=True)
 
 
-def snapshot_value(v, deep=False, memo=None):
-    """Copy mutable containers/objects so later mutation does not alter the snapshot."""
+def snapshot_value(v, deep=False, memo=None, _top=True):
+    """Snapshot for old(...): containers are copied (so later in-place mutation does not alter the
+    snapshot); the elements stay the same objects unless deep=True (copy.deepcopy model)."""
     if memo is None:
         memo = {}
     if id(v) in memo:
@@ -484,27 +485,28 @@ def snapshot_value(v, deep=False, memo=None):
     if isinstance(v, list):
         r = []
         memo[id(v)] = r
-        r.extend(snapshot_value(x, deep, memo) for x in v)
+        r.extend(snapshot_value(x, deep, memo, False) if deep else x for x in v)
         return r
     if isinstance(v, dict):
         r = {}
         memo[id(v)] = r
         for k, x in v.items():
-            r[k] = snapshot_value(x, deep, memo)
+            r[k] = snapshot_value(x, deep, memo, False) if deep else x
         return r
     if isinstance(v, tuple):
-        return tuple(snapshot_value(x, deep, memo) for x in v)
+        return tuple(snapshot_value(x, deep, memo, False) if deep else x for x in v)
     if isinstance(v, set):
         return set(v)
     if isinstance(v, _pyvc().MutBytes):
         return _pyvc().MutBytes(v.v)
-    if isinstance(v, Obj):
+    if isinstance(v, Obj) and (deep or _top):
         r = Obj(v.cls, {}, v.label)
         r.meta = dict(v.meta)
         r.meta['snapshot_of'] = id(v)
         memo[id(v)] = r
         for k, x in v.fields.items():
-            r.fields[k] = snapshot_value(x, deep, memo)
+            r.fields[k] = snapshot_value(x, deep, memo, False) if deep else (
+                list(x) if isinstance(x, list) else (dict(x) if isinstance(x, dict) else x))
         return r
     return v
 
@@ -735,7 +737,15 @@ def native_method_call(I, name, recv, args, kw):
         all(not is_symbolic(a) and not isinstance(a, (MB, SL, _pyvc().Closure, _pyvc().BoundMethod))
             for a in list(args) + list(kw.values()))
     # --- lists / dicts / sets hold values: operate natively on the spine
+    if isinstance(recv, list) and name in ('append', 'extend', 'pop', 'insert', 'remove', 'sort', 'reverse', 'clear'):
+        M.note_list_mutation(I, recv)
     if isinstance(recv, list):
+        if name == 'pop' and args and isinstance(args[0], SInt):
+            n = len(recv)
+            for k in range(-n, n):
+                if I.path.branch(args[0].t == k):
+                    return recv.pop(k)
+            I.raise_py(IndexError, "pop index out of range")
         if name == 'append':
             recv.append(args[0])
             return None
